@@ -240,6 +240,10 @@ func checkC02(c *Check) {
 			c.Cond(okSame && retOK, key+":same-map", p.FuncPos(m), "the map filled by the matcher is the one decoded and returned", "Match decodes or returns a different map than the matcher filled")
 		}
 	}
+	if m := p.Meth("route", "baseTree", "Match"); m != nil {
+		why := orderDependentMapLoops(m)
+		c.Cond(len(why) == 0, p.FuncKey(m)+":decode-all", p.FuncPos(m), "the decode loop visits every captured value (no early exit)", "not every captured value is decoded: "+strings.Join(why, "; "))
+	}
 	if nc := p.Fn("flamego", "newContext"); nc != nil {
 		ok := false
 		for _, u := range p.FieldUses(p.Field("flamego", "context", "params")) {
